@@ -21,6 +21,11 @@ def load_contracts(paths):
             text = f.read()
         tree = ast.parse(text, filename=p)
         for node in tree.body:
+            if isinstance(node, ast.Assign) and len(node.targets) == 1 and isinstance(node.targets[0], ast.Name):
+                try:
+                    specfuncs[node.targets[0].id] = ("const", ast.literal_eval(node.value))
+                except Exception:
+                    pass
             if not isinstance(node, ast.FunctionDef):
                 continue
             tag = None
@@ -105,7 +110,10 @@ class ContractMixin(CallMixin):
             return VBool(isinstance(self.force(st, args[0]), VNone))
         if name == "typed":
             ok, tn = pyconst(args[1])
-            return VBool(self.pytype_name(st, self.force(st, args[0])) == tn)
+            v = self.force(st, args[0])
+            if isinstance(v, VDyn):
+                return VBool(t_or(*[v.tag == i for i, (ty, a) in enumerate(v.alts) if {0: "NoneType", 1: "bool", 2: "int", 3: "float", 4: "str"}[i] == tn]))
+            return VBool(self.pytype_name(st, v) == tn)
         if name == "sameobj":
             a, b = args
             return VBool(isinstance(a, VRef) and isinstance(b, VRef) and self.canon(st, a).root == self.canon(st, b).root
@@ -115,12 +123,16 @@ class ContractMixin(CallMixin):
             ok, fname = pyconst(args[0])
             ok, tn = pyconst(args[1])
             ty = self.schema.parse(tn)
-            ts = []
-            for a in args[2:]:
-                a = self.force(st, a)
-                ts.append(self.lower(a, self.type_of(a)))
-            f = self.ctx.ufunc("spec_" + fname, *[t.sort() for t in ts], ty.sort())
-            return self.lift(f(*ts) if ts else z3.Const("spec_" + fname, ty.sort()), ty)
+            def build(vals):
+                ts = []
+                for i, a in enumerate(vals):
+                    a = self.force(st, a)
+                    if isinstance(a, VDyn):
+                        return self.dyn_apply(st, a, lambda x: build(vals[:i] + [x] + vals[i + 1:]))
+                    ts.append(self.lower(a, self.type_of(a)))
+                f = self.ctx.ufunc(fname, *[t.sort() for t in ts], ty.sort())
+                return self.lift(f(*ts) if ts else z3.Const(fname, ty.sort()), ty)
+            return build(list(args[2:]))
         if name == "count":
             return self.agg_len(st, args[0])
         if name == "fresh":
@@ -130,7 +142,7 @@ class ContractMixin(CallMixin):
 
     def mk_obl(self, st, name, goal, kind, where=""):
         from .symex import Obligation
-        return Obligation(name, kind, st.pc, z3.simplify(goal), where)
+        return Obligation(name, kind, st.hyps(), z3.simplify(goal), where)
 
     def snapshot_env(self, st):
         env = {}
